@@ -131,6 +131,10 @@ int read_task_txt_file(struct uftrace_session_link *sess, char *dirname, char *s
 
 	pr_dbg("reading %s file\n", fname);
 	while (getline(&line, &sz, fp) >= 0) {
+		/* a last line without its newline is an incomplete record (cut file) */
+		if (strchr(line, '\n') == NULL)
+			break;
+
 		/* a bare tag (cut file): line + 5 would be past the end of the line */
 		if (strlen(line) < 5)
 			continue;
